@@ -13,6 +13,7 @@ oracle, SetCoordinate, ForgetNode) from a freshly created client.  Randomness is
 -/
 import SerfProofs.Lemmas.Coord
 import SerfProofs.Lemmas.ERatLaws
+import SerfModel.Gen.CoordGuards
 namespace SerfProofs.C20
 open SerfModel SerfModel.Coord FloatLike
 
@@ -264,6 +265,38 @@ theorem C20_accept (cfg : Config F) (hpos : 0 < cfg.latencyFilterSize) (cl : Cli
     rw [hm] at hl; cases hl
   · exact hu
 
+/-! ## 4b. one Update, from ANY client state -/
+
+/-- **C20 (single step, full strength).** For every client state — including one whose coordinate is already invalid
+or of a foreign dimension —, every peer coordinate, round-trip time and random draws, `Update` does exactly one of:
+* reject (the observation is not acceptable) and leave the WHOLE client unchanged;
+* accept (the observation is acceptable) and end with a coordinate all of whose components are finite: either the
+  computed one, or — when the computation produced a non-finite component — a fresh coordinate, counted in `resets`;
+* panic, which happens only with `LatencyFilterSize = 0` (an application misconfiguration) and leaves the coordinate alone.
+No arithmetic law is used except "0.0 is finite". -/
+theorem C20_update_valid_or_reset [LawfulFloatLike F] (cfg : Config F)
+    (he : finite cfg.errorMax = true) (hh : finite cfg.heightMin = true) (cl : Client F) (o : Obs F) :
+    (¬ acceptable cl o.other o.rttNs ∧ ∃ r, update cfg cl o.node o.other o.rttNs o.rnd = (cl, .rejected r)) ∨
+    (acceptable cl o.other o.rttNs ∧ (update cfg cl o.node o.other o.rttNs o.rnd).2 = .ok ∧
+      isValid (update cfg cl o.node o.other o.rttNs o.rnd).1.coord = true) ∨
+    ((update cfg cl o.node o.other o.rttNs o.rnd).2 = .panic ∧ cfg.latencyFilterSize = 0 ∧
+      (update cfg cl o.node o.other o.rttNs o.rnd).1.coord = cl.coord) := by
+  rcases update_cases cfg cl o.node o.other o.rttNs o.rnd with ⟨r, hr, hu⟩ | ⟨_, hp, hu, hl⟩ | ⟨hr, hok, rtt, _, hu⟩
+  · left
+    refine ⟨fun hacc => ?_, r, hu⟩
+    rw [(C20_acceptable_iff _ _ _).2 hacc] at hr; cases hr
+  · right; right
+    refine ⟨hp, ?_, hu⟩
+    rcases Nat.eq_zero_or_pos cfg.latencyFilterSize with h0 | hpos
+    · exact h0
+    · obtain ⟨m, hm⟩ := latencyFilter_some cfg hpos cl o.node (rttSeconds o.rttNs)
+      rw [hm] at hl; cases hl
+  · right; left
+    refine ⟨(C20_acceptable_iff _ _ _).1 hr, hok, ?_⟩
+    rcases hu with ⟨hu, hv⟩ | ⟨hu, _⟩
+    · rw [hu]; exact hv
+    · rw [hu]; exact isValid_newCoordinate cfg he hh
+
 /-! ## 5. the ping delegate caches a peer's coordinate iff it accepted the observation -/
 
 /-- **C20 (cache).** `NotifyPingComplete` caches the peer's coordinate exactly when the payload decodes to a
@@ -294,6 +327,186 @@ theorem C20_cache_iff_accepted (cfg : Config F) (hpos : 0 < cfg.latencyFilterSiz
       simp only at hr
       simp only [notifyPingComplete, hr]
       simp [hacc]
+
+/-! ## 6. regenerated ties: the model's guards and statement orders ARE the ones in the source
+
+`SerfModel.Gen.CoordGuards` is regenerated on every check from coordinate/coordinate.go, coordinate/client.go and
+serf/ping_delegate.go.  The obligations below say that the generated shapes, interpreted with the model's component
+functions, are the hand-written model — for every arithmetic and every input.  An edit of componentIsValid (e.g. a
+one-sided infinity test), of the fields IsValid looks at, of the order of the two checks in checkCoordinate, of the
+rtt bounds or their strictness, of the order of the statements of Update (the final validity check in particular)
+or of NotifyPingComplete (cache writes before the error return) changes a generated value and breaks one of them. -/
+
+section gen
+open SerfModel.Gen
+
+/-- the generated shape of Client.Update -/
+def genShape : UpdShape :=
+  { comp := CoordGuards.componentIsValid, valid := CoordGuards.isValid, checks := CoordGuards.checkCoordinate,
+    guard := CoordGuards.rttGuard, steps := CoordGuards.update }
+
+/-- componentIsValid is the model's `finite`: neither infinity (BOTH signs) nor NaN — the FloatLike validity
+parameter of every theorem above -/
+theorem C20_gen_componentIsValid (x : F) : CoordGuards.componentIsValid.eval x = finite x := by
+  simp [CoordGuards.componentIsValid, CompExpr.eval, finite]
+
+theorem C20_gen_isValid (c : Coordinate F) :
+    CoordGuards.isValid.eval CoordGuards.componentIsValid c = SerfModel.Coord.isValid c := by
+  simp [CoordGuards.isValid, ValidShape.eval, SerfModel.Coord.isValid, CoordField.get,
+    C20_gen_componentIsValid, Bool.and_assoc]
+
+theorem C20_gen_checkCoordinate (cl : Client F) (c : Coordinate F) :
+    interpCheck CoordGuards.componentIsValid CoordGuards.isValid CoordGuards.checkCoordinate cl c =
+      SerfModel.Coord.checkCoordinate cl c := by
+  simp only [CoordGuards.checkCoordinate, interpCheck, C20_gen_isValid, SerfModel.Coord.checkCoordinate]
+
+theorem C20_gen_rttGuard (rttNs : Int) :
+    CoordGuards.rttGuard.rejects rttNs = (decide (rttNs < 0) || decide (rttNs > 10000000000)) := by
+  rfl
+
+/-- **Regenerated tie (Update).** The statements of Client.Update, in source order, interpreted with the model's
+component functions, compute exactly the model's `update`. -/
+theorem C20_gen_update (cfg : Config F) (cl : Client F) (node : String) (other : Coordinate F) (rttNs : Int)
+    (rnd : List F) :
+    interpUpdate genShape cfg cl node other rttNs rnd = SerfModel.Coord.update cfg cl node other rttNs rnd := by
+  unfold SerfModel.Coord.update rejection
+  simp only [interpUpdate, genShape, CoordGuards.update]
+  cases hk : SerfModel.Coord.checkCoordinate cl other with
+  | some r => simp [runUpdateSteps, stepUpdate, C20_gen_checkCoordinate, hk]
+  | none =>
+    by_cases hr : (decide (rttNs < 0) || decide (rttNs > 10000000000)) = true
+    · simp [runUpdateSteps, stepUpdate, C20_gen_checkCoordinate, hk, C20_gen_rttGuard, hr]
+    · cases hl : (latencyFilter cfg cl node (rttSeconds rttNs)).2 with
+      | none => simp [runUpdateSteps, stepUpdate, C20_gen_checkCoordinate, hk, C20_gen_rttGuard, hr, hl]
+      | some rtt =>
+        by_cases hv : SerfModel.Coord.isValid (updateGravity cfg (updateVivaldi cfg rnd (latencyFilter cfg cl node (rttSeconds rttNs)).1 other rtt).2
+            (updateAdjustment cfg (updateVivaldi cfg rnd (latencyFilter cfg cl node (rttSeconds rttNs)).1 other rtt).1 other rtt)).1.coord = true
+        · simp [runUpdateSteps, stepUpdate, C20_gen_checkCoordinate, hk, C20_gen_rttGuard, hr, hl, C20_gen_isValid, hv]
+        · simp [runUpdateSteps, stepUpdate, C20_gen_checkCoordinate, hk, C20_gen_rttGuard, hr, hl, C20_gen_isValid, hv]
+
+/-- **Regenerated tie (ping delegate).** The statements of NotifyPingComplete in source order compute the model's
+`notifyPingComplete`; in particular the error return precedes both cache writes. -/
+theorem C20_gen_ping (cfg : Config F) (n : Node F) (peer : String) (rttNs : Int) (p : Payload F) (rnd : List F) :
+    interpPing CoordGuards.notifyPingComplete cfg n peer rttNs p rnd =
+      SerfModel.Coord.notifyPingComplete cfg n peer rttNs p rnd := by
+  cases p with
+  | empty => simp [interpPing, CoordGuards.notifyPingComplete, runPingSteps, stepPing, SerfModel.Coord.notifyPingComplete]
+  | badVersion => simp [interpPing, CoordGuards.notifyPingComplete, runPingSteps, stepPing, SerfModel.Coord.notifyPingComplete]
+  | undecodable => simp [interpPing, CoordGuards.notifyPingComplete, runPingSteps, stepPing, SerfModel.Coord.notifyPingComplete]
+  | coord c =>
+    rcases hu : SerfModel.Coord.update cfg n.client peer c rttNs rnd with ⟨cl', r⟩
+    cases r <;>
+      simp [interpPing, CoordGuards.notifyPingComplete, runPingSteps, stepPing, SerfModel.Coord.notifyPingComplete, hu]
+
+/-- **Regenerated tie (arithmetic bodies).** The statements of the functions the model transcribes by hand
+(latencyFilter, updateVivaldi with the error clamp, updateAdjustment, updateGravity, ApplyForce with the height
+clamp, unitVectorAt, NewCoordinate), comments and layout stripped, are the ones the model was written against.
+Any change of an expression, a comparison, a constant or the order of two statements breaks this obligation; the
+differential run then finds the input on which the behaviour differs. -/
+theorem C20_gen_pinned_sources : CoordGuards.pinned = [
+  ("latencyFilter", [
+    "samples, ok := c.latencyFilterSamples[node]",
+    "if !ok { samples = make([]float64, 0, c.config.LatencyFilterSize) }",
+    "samples = append(samples, rttSeconds)",
+    "if len(samples) > int(c.config.LatencyFilterSize) { samples = samples[1:] }",
+    "c.latencyFilterSamples[node] = samples",
+    "sorted := make([]float64, len(samples))",
+    "copy(sorted, samples)",
+    "sort.Float64s(sorted)",
+    "return sorted[len(sorted)/2]"]),
+  ("updateVivaldi", [
+    "const zeroThreshold = 1.0e-6",
+    "dist := c.coord.DistanceTo(other).Seconds()",
+    "if rttSeconds < zeroThreshold { rttSeconds = zeroThreshold }",
+    "wrongness := math.Abs(dist-rttSeconds) / rttSeconds",
+    "totalError := c.coord.Error + other.Error",
+    "if totalError < zeroThreshold { totalError = zeroThreshold }",
+    "weight := c.coord.Error / totalError",
+    "c.coord.Error = c.config.VivaldiCE*weight*wrongness + c.coord.Error*(1.0-c.config.VivaldiCE*weight)",
+    "if c.coord.Error > c.config.VivaldiErrorMax { c.coord.Error = c.config.VivaldiErrorMax }",
+    "delta := c.config.VivaldiCC * weight",
+    "force := delta * (rttSeconds - dist)",
+    "c.coord = c.coord.ApplyForce(c.config, force, other)"]),
+  ("updateAdjustment", [
+    "if c.config.AdjustmentWindowSize == 0 { return }",
+    "dist := c.coord.rawDistanceTo(other)",
+    "c.adjustmentSamples[c.adjustmentIndex] = rttSeconds - dist",
+    "c.adjustmentIndex = (c.adjustmentIndex + 1) % c.config.AdjustmentWindowSize",
+    "sum := 0.0",
+    "for _, sample := range c.adjustmentSamples { sum += sample }",
+    "c.coord.Adjustment = sum / (2.0 * float64(c.config.AdjustmentWindowSize))"]),
+  ("updateGravity", [
+    "dist := c.origin.DistanceTo(c.coord).Seconds()",
+    "force := -1.0 * math.Pow(dist/c.config.GravityRho, 2.0)",
+    "c.coord = c.coord.ApplyForce(c.config, force, c.origin)"]),
+  ("ApplyForce", [
+    "if !c.IsCompatibleWith(other) { panic(DimensionalityConflictError{}) }",
+    "ret := c.Clone()",
+    "unit, mag := unitVectorAt(config.rand, c.Vec, other.Vec)",
+    "ret.Vec = add(ret.Vec, mul(unit, force))",
+    "if mag > zeroThreshold { ret.Height = (ret.Height+other.Height)*force/mag + ret.Height ret.Height = math.Max(ret.Height, config.HeightMin) }",
+    "return ret"]),
+  ("unitVectorAt", [
+    "ret := diff(vec1, vec2)",
+    "if mag := magnitude(ret); mag > zeroThreshold { return mul(ret, 1.0/mag), mag }",
+    "for i := range ret { if rng != nil { ret[i] = rng.Float64() - 0.5 } else { ret[i] = rand.Float64() - 0.5 } }",
+    "if mag := magnitude(ret); mag > zeroThreshold { return mul(ret, 1.0/mag), 0.0 }",
+    "ret = make([]float64, len(ret))",
+    "ret[0] = 1.0",
+    "return ret, 0.0"]),
+  ("NewCoordinate", [
+    "return &Coordinate{Vec: make([]float64, config.Dimensionality), Error: config.VivaldiErrorMax, Adjustment: 0.0, Height: config.HeightMin}"])] := rfl
+
+end gen
+
+/-! ## 7. every hypothesis is necessary (exact arithmetic, so none of this is a rounding artefact)
+
+Each counterexample is also a corpus case (corpus/C20/necessity-*.case) run on the real client every time: model and
+implementation agree bit for bit on the offending value. -/
+
+/-- a sane configuration: dim 1, ErrorMax 2, CE = CC = 1/4, no adjustment window, HeightMin 0, filter 1, rho 150 -/
+def ncCfg : Config ERat :=
+  { dim := 1, errorMax := .fin 2, ce := .fin (1 / 4), cc := .fin (1 / 4), adjWindow := 0, heightMin := .fin 0,
+    latencyFilterSize := 1, gravityRho := .fin 150 }
+
+/-- a peer exactly 1 s away whose measured round trip is exactly 1 s (so the "wrongness" is 0) -/
+def ncPeer (err : ERat) : Coordinate ERat := ⟨[.fin 1], err, .fin 0, .fin 0⟩
+
+def ncRun (cfg : Config ERat) (peerErr : ERat) : Option (Coordinate ERat × UpdateResult) :=
+  (newClient cfg).map fun cl => ((update cfg cl "a" (ncPeer peerErr) 1000000000 []).1.coord,
+    (update cfg cl "a" (ncPeer peerErr) 1000000000 []).2)
+
+/-- with the sane configuration and a non-negative peer error the step is accepted and the error stays in range -/
+example : CfgOK ncCfg ∧ (ncRun ncCfg (.fin 0)).map (fun r => (r.2, r.1.error)) = some (.ok, .fin (3 / 2)) := by
+  refine ⟨by constructor <;> decide +kernel, by decide +kernel⟩
+
+/-- `VivaldiCE ≤ 1` is necessary: with CE = 2 one accepted observation from a peer with error 0 drives the error
+estimate to -2 (the coordinate is finite, so it is not reset). -/
+theorem C20_ce_le_one_necessary :
+    (ncRun { ncCfg with ce := .fin 2 } (.fin 0)).map (fun r => (r.2, r.1.error, isValid r.1)) =
+      some (.ok, .fin (-2), true) := by decide +kernel
+
+/-- "peers report non-negative errors" is necessary: a peer reporting error -2 drives the error estimate to -999998
+(weight 2/10^-6, CE = 1/4). -/
+theorem C20_peer_nonneg_error_necessary :
+    (ncRun ncCfg (.fin (-2))).map (fun r => (r.2, r.1.error, isValid r.1)) =
+      some (.ok, .fin (-999998), true) := by decide +kernel
+
+/-- `0 ≤ VivaldiErrorMax` is necessary: a fresh client starts with error = ErrorMax. -/
+theorem C20_errorMax_nonneg_necessary :
+    (newClient { ncCfg with errorMax := .fin (-1) }).map (fun cl => le (zero : ERat) cl.coord.error) = some false := by
+  decide +kernel
+
+/-- finiteness of ErrorMax / HeightMin is necessary: otherwise even the fresh coordinate is invalid -/
+theorem C20_cfg_finite_necessary :
+    (newClient { ncCfg with errorMax := .pinf }).map (fun cl => isValid cl.coord) = some false ∧
+    (newClient { ncCfg with heightMin := .nan }).map (fun cl => isValid cl.coord) = some false := by
+  decide +kernel
+
+/-- `LatencyFilterSize ≥ 1` is necessary for `C20_accept`: with 0 an acceptable observation panics
+(`sorted[len(sorted)/2]` on an empty slice, client.go:144) -/
+theorem C20_filter_pos_necessary :
+    (ncRun { ncCfg with latencyFilterSize := 0 } (.fin 0)).map (·.2) = some .panic := by decide +kernel
 
 /-! ## Non-vacuity: the hypotheses are satisfiable (exact instance), and the bounds are attained there -/
 
